@@ -8,6 +8,7 @@ from pyvc import logic as L
 from pyvc.contract import Raised, contract
 
 from .bellman import Bellman, Layout, install_overrides
+from .specmodel import spec_eval
 from .skeletons import build, skeletons, symbolic_params
 
 
@@ -178,10 +179,36 @@ def same_array(k, a, b):
     return L.And(*conds)
 
 
+def skip_unsupported_filters(k, b, skel):
+    """native sampling: a sampled filter that leaves some period without any admissible (restricted state,
+    restricted choice) combination is not a supported model (C01: every state of the space has a choice; the
+    space itself is non-empty) -- such samples are skipped"""
+    if k.mode != "native":
+        return
+    import itertools
+
+    from pyvc.contract import SkipInstance
+
+    lay = Layout(skel)
+    filters = skel.names_with_role("filter")
+    if not filters:
+        return
+    for t in range(skel.n_periods):
+        found = False
+        for combo in itertools.product(*[range(skel.n_labels(v)) for v in lay.RS + lay.RC]):
+            env = {**dict(zip(lay.RS + lay.RC, combo)), "_period": t}
+            if all(bool(spec_eval(k, b, f, env)) for f in filters):
+                found = True
+                break
+        if not found:
+            raise SkipInstance("a period without any admissible restricted combination")
+
+
 def setup_solution(k, skel):
     """real get_lcm_function on the skeleton's model; returns (built, internal model, keywords of the solve
     partial, params) or a Raised"""
     b = build(k, skel)
+    skip_unsupported_filters(k, b, skel)
     im = k.call_fn(k.fn("lcm.input_processing.process_model.process_model"), b.model)
     if isinstance(im, Raised):
         return im
@@ -336,6 +363,7 @@ def utility_and_feasibility_contract(k, inst):
     restore = install_overrides(k, k.world) if k.mode != "native" else (lambda: None)
     try:
         b = build(k, skel)
+        skip_unsupported_filters(k, b, skel)
         im = k.call_fn(k.fn("lcm.input_processing.process_model.process_model"), b.model)
         if isinstance(im, Raised):
             k.fail("model-processed", repr(im))
